@@ -1,8 +1,8 @@
 package checks
 
 import (
-	"strings"
 	"github.com/gogpu/naga/ir"
+	"strings"
 
 	"verif/internal/explore"
 	"verif/internal/nagax"
